@@ -358,9 +358,16 @@ pub fn run(world: &World, cfg: &RunCfg, seed: u64, tag: &str) -> Outcome {
 			Ok(s) => s,
 			Err(e) => return finish(&mut receiver, Some(viol("segmenter-failed", format!("{:?}", e))), log, 0, probes, faults),
 		};
-		let des = match receiver.chain().desegmenter(&ah) {
-			Ok(d) => d,
-			Err(e) => return finish(&mut receiver, Some(viol("desegmenter-failed", format!("{:?}", e))), log, 0, probes, faults),
+		// a panic in the constructor (it sizes the bitmap MMR from the archive header) is the node
+		// failing to start state sync, not a harness error
+		let des_res = std::panic::catch_unwind(std::panic::AssertUnwindSafe(|| receiver.chain().desegmenter(&ah)));
+		let des = match des_res {
+			Ok(Ok(d)) => d,
+			Ok(Err(e)) => return finish(&mut receiver, Some(viol("desegmenter-failed", format!("{:?}", e))), log, 0, probes, faults),
+			Err(p) => {
+				let msg = p.downcast_ref::<String>().cloned().or_else(|| p.downcast_ref::<&str>().map(|s| s.to_string())).unwrap_or_else(|| "panic".into());
+				return finish(&mut receiver, Some(viol("desegmenter-failed", format!("Chain::desegmenter() panicked for an archive header at height {} ({} outputs): {}", ah.height, ah.output_mmr_count(), msg))), log, 0, probes, faults);
+			}
 		};
 		let sync_state = Arc::new(SyncState::new());
 		let mut inflight: Vec<Response> = vec![];
